@@ -22,6 +22,7 @@ SPEC = {
     "ddpg_update_actor": dict(mods=["ddpg", "td3", "td3_lap"], trained=[("policy", ())], opt=["policy_optimizer"]),
     "sac_update_actor": dict(mods=["sac"], trained=[("policy", ())], opt=["policy_optimizer"]),
     "_update_entropy_coefficient": dict(mods=["sac"], trained=[("log_alpha", ())], opt=["optimizer"]),
+    "EntropyControl.update": dict(mods=[], method=("sac", "EntropyControl", "update"), trained=[("self._alpha", ())], opt=["self.optimizer"]),
     "td7_update_critic": dict(mods=["td7"], trained=[("critic", ())], opt=["critic_optimizer"]),
     "td7_update_actor": dict(mods=["td7"], trained=[("policy", ("actor",))], opt=["actor_optimizer"]),
     "update_sale": dict(mods=["td7"], trained=[("embedding", ())], opt=["embedding_optimizer"]),
@@ -50,6 +51,9 @@ def nnx_objects(name, v, out, depth=0):
     elif depth < 2 and isinstance(v, (tuple, list)):
         for i, x in enumerate(v):
             nnx_objects(f"{name}[{i}]", x, out, depth + 1)
+    elif depth < 1 and hasattr(v, "__dict__") and type(v).__module__.startswith("rl_blox"):      # a plain library object holding modules (EntropyControl)
+        for attr, x in vars(v).items():
+            nnx_objects(f"{name}.{attr}", x, out, depth + 1)
 
 
 def variables(obj):
@@ -69,6 +73,7 @@ def take(objs):
 
 class Spy:
     def __init__(self):
+        self.signature_changes = []
         self.calls = []            # dict(routine, objs {name: [(path, id)]}, changed {name: [path idx]}, ws ids, iteration, context)
         self.run_mods = {}
         self.snaps = None
@@ -93,6 +98,10 @@ class Spy:
                 m = tr.resolve(m)
                 if m is not None:
                     objs["run:" + n] = m
+            missing = [arg for arg, _ in spec["trained"] if arg not in objs] + [arg for arg in spec["opt"] if arg not in objs]
+            if missing:       # the routine's signature no longer matches the table: reported as a broken correspondence by the caller
+                self.signature_changes.append((key, missing))
+                return orig(*a, **k)
             before = take(objs)
             out = orig(*a, **k)
             after = take(objs)
@@ -113,6 +122,12 @@ class Spy:
         from flax import nnx
         import rl_blox.algorithm.dqn as dqn
         for key, spec in SPEC.items():
+            if "method" in spec:
+                mod = importlib.import_module(f"rl_blox.algorithm.{spec['method'][0]}")
+                cls = getattr(mod, spec["method"][1])
+                orig = getattr(cls, spec["method"][2])
+                setattr(cls, spec["method"][2], self.wrap(key, orig))
+                self._patched.append((cls, spec["method"][2], orig))
             for m in spec["mods"]:
                 mod = importlib.import_module(f"rl_blox.algorithm.{m}")
                 orig = getattr(mod, key)
@@ -188,6 +203,44 @@ def on_policy_runs(spy, rng, which, variant=0):
         train_ppo(envs, actor, critic, oa, oc, iterations=2, epochs=2, batch_size=16, seed=seed, progress_bar=False)
 
 
+def evaluation_cases(chk, rng):
+    """merely evaluating a loss or acting changes nothing - also for parameter values at the edge of their range"""
+    import jax
+    import jax.numpy as jnp
+    from flax import nnx
+    from rl_blox.algorithm import sac
+    from rl_blox.algorithm.ddpg import create_ddpg_state
+    from rl_blox.blox.losses import deterministic_policy_gradient_loss
+    from stubs import ScriptEnv
+    env = ScriptEnv([(3, "term")], low=(-2.0,), high=(1.0,))
+    obs = jnp.asarray(rng.normal(size=(4, 3)).astype(np.float32))
+    st = sac.create_sac_state(env, policy_hidden_nodes=[4], q_hidden_nodes=[4], seed=1)
+    dd = create_ddpg_state(env, policy_hidden_nodes=[4], q_hidden_nodes=[4], seed=2)
+    for la in (0.0, 3.0, -12.0, 1.9):
+        alpha = sac.EntropyCoefficient(jnp.asarray([la], dtype=jnp.float32))
+        evals = {
+            "sac_exploration_loss": (lambda: sac.sac_exploration_loss(st.policy, -1.0, jax.random.key(0), obs, alpha), {"alpha": alpha, "policy": st.policy}),
+            "grad sac_exploration_loss": (lambda: nnx.value_and_grad(sac.sac_exploration_loss, argnums=4)(st.policy, -1.0, jax.random.key(0), obs, alpha),
+                                          {"alpha": alpha, "policy": st.policy}),
+            "alpha()": (lambda: alpha(), {"alpha": alpha}),
+            "sac_actor_loss": (lambda: sac.sac_actor_loss(st.policy, st.q, float(np.exp(min(la, 2.0))), jax.random.key(1), obs), {"policy": st.policy, "q": st.q}),
+            "policy.sample": (lambda: st.policy.sample(obs, jax.random.key(2)), {"policy": st.policy}),
+            "deterministic_policy_gradient_loss": (lambda: deterministic_policy_gradient_loss(dd.q, obs, dd.policy), {"policy": dd.policy, "q": dd.q}),
+            "policy(obs)": (lambda: dd.policy(obs), {"policy": dd.policy}),
+        }
+        for what, (fn, objs) in evals.items():
+            before = take(objs)
+            ok, _ = chk.impl_call(f"C05:{what}:raised", {"log_alpha": la}, fn)
+            after = take(objs)
+            chk.case(("evaluation", what, la))
+            chk.count("evaluation_cases")
+            for n in objs:
+                ch = [describe({"objs": {n: [(p, i) for p, i, _ in before[n]]}}, n, j) for j, ((_, _, b), (_, _, c)) in enumerate(zip(before[n], after[n])) if b.tobytes() != c.tobytes()]
+                if ch:
+                    chk.fail(f"C05:{what.split('(')[0].replace(' ', '-')}:evaluation-changes-state", f"evaluating {what} changed parameters although nothing is trained",
+                             {"evaluated": what, "log_alpha": la, "object": n, "paths": ch})
+
+
 OFF_POLICY = ["dqn", "nature_dqn", "ddqn", "per", "ddpg", "td3", "td3_lap", "sac", "td7", "mrq", "pets"]
 ON_POLICY = ["reinforce", "actor_critic", "a2c", "ppo"]
 
@@ -201,6 +254,7 @@ def main(chk):
     chk.proof_step()
     rng = np.random.default_rng(chk.seed)
     q = chk.tier == "quick"
+    evaluation_cases(chk, rng)
     spy = Spy()
     loop_recs = []
     spy.install()
@@ -326,8 +380,10 @@ def main(chk):
             if sr["calls"] >= 2 and n == 0:
                 chk.fail(f"C05:{key}:never-trains", f"{key} never changed {t}, the component it is documented to train, in the {sr['calls']} calls of one training run",
                          {"routine": key, "component": t, "run": ctx})
+    for key, missing in sorted(set((k_, tuple(m_)) for k_, m_ in spy.signature_changes)):
+        chk.disagree("routine-table", {"routine": key, "what": "its arguments no longer include the documented trained component / optimizer", "missing": list(missing)})
     for key in SPEC:
-        if key not in seen_any:
+        if key not in seen_any and not any(k_ == key for k_, _ in spy.signature_changes):
             chk.disagree("routine-table", {"routine": key, "what": "not reached by any training run (renamed, or no longer called)"})
 
     # ---- loop level: online parameters change only inside intercepted update routines (acting / loss evaluation change nothing)
